@@ -42,6 +42,11 @@ def cases(draw):
     xf = draw(st.sampled_from(["inch", "relative", "rebase", "translate"]))
     cut = draw(st.integers(0, len(ops) - 1))
     par = [draw(st.integers(-10, 30)) * 0.5, draw(st.integers(-10, 30)) * 0.5, draw(st.sampled_from([0.0, 1.0, 2.5]))]
+    moves = [o for o in ops if o[0] == "mv" and o[1] is not None]
+    if xf == "translate" and moves and draw(st.integers(0, 2)) == 0:
+        # a translation that puts one destination exactly on the origin (logical 0 is a legal coordinate)
+        m = moves[draw(st.integers(0, len(moves) - 1))]
+        par[0], par[1] = -m[1], -m[2]
     return {"regions": regions, "ops": ops, "xf": xf, "cut": cut, "par": par, "g90e": False}
 
 
